@@ -23,13 +23,114 @@ ASSUMPTIONS = ['pysam VariantFile / tabix are trusted', 'truth is only demanded 
                'positions >= 0 are queried (position -1 is an internal sentinel)']
 MIN_NONTRIVIAL = {'quick': 2000, 'thorough': 30000}
 REQUIRED_MONITORS = ['ret:getAllelesAt', 'ret:has_location', 'mode:eager', 'mode:lazy', 'mode:cache_write', 'mode:cache_read',
-                     'mode:cache_flag_without_lazy', 'history:cache_from_other_config', 'oracle:clean_sites', 'evicted_contig_revisited']
+                     'mode:cache_flag_without_lazy', 'history:cache_from_other_config', 'oracle:clean_sites', 'evicted_contig_revisited', 'tagger:runs', 'oracle:DA_compared']
 SHARD_TIMEOUT = {'quick': 600, 'thorough': 3600}
 
 
 def gen_cases(tier, seed):
     n = 96 if tier == 'quick' else 800
-    return [{'i': i, 'seed': seed} for i in range(n)]
+    cases = [{'i': i, 'seed': seed} for i in range(n)]
+    # the allele tag written by the real tagger (-alleles), without cache / writing the cache / reading the cache
+    for j in range(8 if tier == 'quick' else 96):
+        cases.append({'kind': 'tagger', 'j': j, 'seed': seed})
+    return cases
+
+
+def run_tagger_case(case):
+    import pysam
+    from vlib.sim import frags as F
+    from vlib.sim.bam import write_bam
+    from vlib import tagger as T
+    acc = Acc()
+    r = rng(case['seed'], 'C18', 'tagger', case['j'])
+    method = r.choice(['nla', 'chic'])
+    contigs = [('chr1', 12000), ('chr2', 7000)][:r.randint(1, 2)]
+    gen, recs, truths = F.simulate_library(r, method=method, contigs=contigs, n_cells=2, n_sites=r.randint(3, 10), umis_per_site=(1, 3), copies=(1, 3),
+                                           case_id=300 + case['j'], p_clip=0.0, p_invalid=0.0, p_mismatch=0.0, p_umi_neighbour=0.0, umi_len=4)
+    if not truths:
+        return acc
+    # variant sites inside covered regions (away from the first bases of read 1)
+    cover = {}
+    for rec in recs:
+        if rec.get('tid', -1) < 0:
+            continue
+        name = gen.refs[rec['tid']][0]
+        for p in range(rec['pos'] + 6, rec['pos'] + len(rec['seq']) - 6):
+            cover.setdefault(name, set()).add(p)
+    sites = {}
+    for name, ps in cover.items():
+        for p in r.sample(sorted(ps), min(len(ps), r.randint(2, 12))):
+            refb = gen.get(name)[p]
+            if refb not in 'ACGT':
+                continue
+            sites[(name, p)] = (refb, r.choice([b for b in 'ACGT' if b != refb]))
+    # every true molecule belongs to one allele: S1 carries the reference base, S2 the alternative
+    mol_allele = {}
+    for t in truths.values():
+        mol_allele.setdefault(t['key'], r.choice(['S1', 'S2']))
+    expect = {}
+    for rec in recs:
+        rid = F.id_from_name(rec['name'])
+        t = truths[rid]
+        name = t['contig']
+        al = mol_allele[t['key']]
+        seq = list(rec['seq'])
+        for i in range(len(seq)):
+            k = (name, rec['pos'] + i)
+            if k in sites:
+                seq[i] = sites[k][0] if al == 'S1' else sites[k][1]
+                expect.setdefault(t['key'], set()).add(k)
+        rec['seq'] = ''.join(seq)
+        rec['tags'] = {k: v for k, v in rec['tags'].items() if k not in ('MD', 'NM')}
+    with Scratch('c18t') as d:
+        vcf = os.path.join(d, 'v.vcf')
+        with open(vcf, 'w') as f:
+            f.write('##fileformat=VCFv4.2\n')
+            for c, ln in contigs:
+                f.write(f'##contig=<ID={c},length={ln}>\n')
+            f.write('##FORMAT=<ID=GT,Number=1,Type=String,Description="Genotype">\n#CHROM\tPOS\tID\tREF\tALT\tQUAL\tFILTER\tINFO\tFORMAT\tS1\tS2\n')
+            for (c, p) in sorted(sites):
+                f.write(f'{c}\t{p + 1}\t.\t{sites[(c, p)][0]}\t{sites[(c, p)][1]}\t50\tPASS\t.\tGT\t0|0\t1|1\n')
+        bam = write_bam(os.path.join(d, 'in.bam'), gen.refs, recs)
+        answers = {}
+        for label, extra, vcfdir in (('no_cache', [], 'a'), ('cache_write', ['--use_allele_cache'], 'b'), ('cache_read', ['--use_allele_cache'], 'b')):
+            sub = os.path.join(d, vcfdir)
+            os.makedirs(sub, exist_ok=True)
+            vz = os.path.join(sub, 'v.vcf.gz')
+            if not os.path.exists(vz):
+                import shutil
+                shutil.copy(vcf, os.path.join(sub, 'v.vcf'))
+                vz = pysam.tabix_index(os.path.join(sub, 'v.vcf'), preset='vcf', force=True)
+            out = os.path.join(d, f'out_{label}.bam')
+            exc, txt = T.run_cli([bam, '-o', out, '-method', method, '-umi_hamming_distance', '0', '-alleles', vz] + extra)
+            acc.evals += 1
+            acc.count('tagger:runs')
+            if exc is not None:
+                acc.violate('tagger-with-alleles-raised:' + type(exc).__name__, f'{label}: tagger raised {exc!r}; {txt[-300:]}', {'method': method})
+                continue
+            da = {}
+            with pysam.AlignmentFile(out) as f:
+                for a in f.fetch(until_eof=True):
+                    da[(F.id_from_name(a.query_name), a.is_read2)] = a.get_tag('DA') if a.has_tag('DA') else None
+                    acc.count('ret:DA_tags_read')
+            answers[label] = da
+        ref = answers.get('no_cache')
+        for label, da in answers.items():
+            if ref is not None and da != ref:
+                diff = [(k, ref.get(k), da.get(k)) for k in set(ref) | set(da) if ref.get(k) != da.get(k)]
+                acc.violate('allele-tag-depends-on-cache-mode', f'{label}: DA tags differ from the uncached run for {len(diff)} reads, e.g. {diff[:3]}', {'method': method})
+        if ref is not None:
+            for (rid, r2), v in ref.items():
+                t = truths[rid]
+                exp = mol_allele[t['key']] if expect.get(t['key']) else None
+                acc.count('oracle:DA_compared')
+                if v != exp:
+                    acc.violate('allele-tag-wrong', f'read {rid}: DA={v} expected {exp} (molecule {t["key"]} covers {len(expect.get(t["key"], ()))} variant sites)',
+                                {'method': method, 'sites': [(k, sites[k]) for k in sorted(expect.get(t['key'], ()))][:6]})
+                    break
+            acc.sigs.update(f"tagger/{case['j']}/{k}" for k in list(expect)[:40])
+        acc.sample = {'tagger': {'method': method, 'variant_sites': len(sites), 'molecules': len(mol_allele), 'molecules_covering_a_site': len(expect)}}
+    return acc
 
 
 def gen_vcf(r, path):
@@ -108,6 +209,8 @@ def truth_for(rows, samples, select, ignore, phased):
 
 
 def run_case(case):
+    if case.get('kind') == 'tagger':
+        return run_tagger_case(case)
     import pysam
     from singlecellmultiomics.alleleTools import AlleleResolver
     acc = Acc()
